@@ -29,7 +29,7 @@ func (p EvenPort) String() string {
 
 const (
 	evenPortSize = 1
-	firstBitSet  = (1 << 8) - 1 // 0b100000000
+	firstBitSet  = 1 << 7 // 0b10000000, the R bit; the other seven bits are reserved
 )
 
 // AddTo adds EVEN-PORT to message.
@@ -53,9 +53,7 @@ func (p *EvenPort) GetFrom(m *stun.Message) error {
 	if err = stun.CheckSize(stun.AttrEvenPort, len(v), evenPortSize); err != nil {
 		return err
 	}
-	if v[0]&firstBitSet > 0 {
-		p.ReservePort = true
-	}
+	p.ReservePort = v[0]&firstBitSet != 0
 
 	return nil
 }
